@@ -41,6 +41,9 @@ class Run:
             f = f"raised {type(e).__name__}: {e}"
             tb = traceback.format_exc().strip().split("\n")
             f += " @ " + tb[-3].strip() if len(tb) >= 3 else ""
+        if isinstance(f, tuple):
+            # (more specific failure key, text): a classified failure
+            key, f = f
         if f:
             if not any(x["key"] == key for x in self.failures) or len(self.failures) < 40:
                 self.failures.append({"contract": contract, "key": key, "input": inp, "what": f})
